@@ -19,6 +19,9 @@ func runC03(c *Ctx) {
 	ruleFlushBeforeRead(c, "R03.c")
 	ruleQuit(c)
 	ruleHandlerErrorKeepsConn(c, "R03.e")
+	// replying to every request "in any chunking" presupposes that parsing does not depend on chunking
+	ruleReaderUses(c, "R03.f", "R03.f")
+	ruleBulkFrame(c, "R03.f")
 }
 
 // ruleLoopProgress: A4 over all loops of the framework packages and the example store.
